@@ -207,13 +207,13 @@ def isKOp : Op → Bool
   | _ => false
 
 /-- the cell a scoped-connection operation disconnects in state `s`: the one held by the object that is
-    destroyed (`delK`), assigned to (`asgKC`), moved into (`masgK`, self-move included) or explicitly disconnected
+    destroyed (`delK`), assigned to (`asgKC`), moved into (`masgK`, not self) or explicitly disconnected
     (`discK`); every other operation disconnects nothing -/
 def kDisconnects (s : St) : Op → Option Nat
   | .delK i => match aget s.K i with | some p => p | none => none
   | .discK i => match aget s.K i with | some p => p | none => none
   | .asgKC i c => match aget s.K i, aget s.C c with | some old, some _ => old | _, _ => none
-  | .masgK j i => match aget s.K j, aget s.K i with | some old, some _ => old | _, _ => none
+  | .masgK j i => match aget s.K j, aget s.K i with | some old, some _ => if j = i then none else old | _, _ => none
   | _ => none
 
 def discOpt (s : St) (p : Option Nat) : St :=
@@ -270,11 +270,14 @@ theorem kop_impls (s s' : St) (r : String) (op : Op) (hop : isKOp op = true)
     split at h
     · rename_i old p hk hc
       simp only [hk, hc]
-      split at h
-      · simp at h; obtain ⟨rfl, _⟩ := h
-        cases old <;> simp [disconnectCell_impls]
-      · simp at h; obtain ⟨rfl, _⟩ := h
-        cases old <;> simp [disconnectCell_impls]
+      by_cases hji : j = i
+      · simp [hji] at h ⊢; obtain ⟨rfl, _⟩ := h; rfl
+      · simp only [hji, if_false] at h ⊢
+        split at h
+        · simp at h; obtain ⟨rfl, _⟩ := h
+          cases old <;> simp [disconnectCell_impls]
+        · simp at h; obtain ⟨rfl, _⟩ := h
+          cases old <;> simp [disconnectCell_impls]
     · rename_i hno
       simp at h; obtain ⟨rfl, _⟩ := h
       split
